@@ -191,6 +191,22 @@ structure Info where
   feerate : Nat               -- u32
 deriving DecidableEq, Repr
 
+/-- `impl Ord for HTLCInfo2`: value, then payment hash, then expiry -/
+def htlcLe (a b : Htlc) : Bool :=
+  decide (a.value < b.value) ||
+    (a.value == b.value && (decide (a.hash < b.hash) || (a.hash == b.hash && decide (a.expiry ≤ b.expiry))))
+
+def insertHtlc (h : Htlc) : List Htlc → List Htlc
+  | [] => [h]
+  | x :: xs => if htlcLe h x then h :: x :: xs else x :: insertHtlc h xs
+
+/-- `Vec::sort` on HTLCInfo2 -/
+def sortHtlcs (l : List Htlc) : List Htlc := l.foldr insertHtlc []
+
+/-- `CommitmentInfo2::new` (normalises the HTLC order) -/
+def Info.new (isCp : Bool) (toCountersigner toBroadcaster : Nat) (offered received : List Htlc) (feerate : Nat) : Info :=
+  ⟨isCp, toBroadcaster, toCountersigner, sortHtlcs offered, sortHtlcs received, feerate⟩
+
 def sumValues (l : List Htlc) : Nat := (l.map (·.value)).sum
 
 /-- total of all outputs, unbounded -/
@@ -223,6 +239,8 @@ def EState.init : EState :=
 
 /-! ### constants -/
 
+/-- LDK `INITIAL_COMMITMENT_NUMBER` = 2^48 - 1 -/
+def initialCommitmentNumber : Nat := 281474976710655
 def htlcTimeoutWeight : Nat := 663   -- LDK HTLC_TIMEOUT_TX_WEIGHT (non zero-fee)
 def htlcSuccessWeight : Nat := 703   -- LDK HTLC_SUCCESS_TX_WEIGHT (non zero-fee)
 
@@ -420,6 +438,8 @@ def signCounterparty (p : Policy) (s : Setup) (c : ChainState) (e : EState) (n :
   if claimablePanics s i then .error .panic
   validateCounterparty p s c e n point i
   if msatPanics p i then .error .panic
+  -- make_counterparty_commitment_tx: `INITIAL_COMMITMENT_NUMBER - commitment_number` (plain `-`)
+  if n > initialCommitmentNumber then .error .panic
   let n1 ← addU64 n 1
   setNextCpCommit p e n1 point i
 
